@@ -339,6 +339,52 @@ pub fn c16(o: &mut Out, seed: u64, sc: &Scale) {
             });
         }
     }
+    // --- UDP paths: the limit is that of the DESTINATION's path (loopback_mtu iff the destination
+    // is loopback; header size of the destination's family), whatever the socket is bound to.
+    // Bind forms {wildcard, loopback, concrete external} x destinations {remote host, loopback, own
+    // external address} x {v4, v6}, payloads straddling both limits, mtu != loopback_mtu both ways.
+    for &(mtu, lomtu) in &[(1500u32, 600u32), (600, 1500), (1500, 65536), (90, 200), (200, 90), (48, 49), (49, 48)] {
+        let cfg = Cfg { mtu, lomtu, ..Cfg::default() };
+        let s = rng.next();
+        o.case("udp_paths", s, &cfg, |w| {
+            let binds: [(u32, IpAddr); 6] = [
+                (0, ip("any4")),
+                (1, ip("lo4")),
+                (2, host_v4(0)),
+                (3, ip("any6")),
+                (4, ip("lo6")),
+                (5, host_v6(0)),
+            ];
+            for (u, b) in binds {
+                w.apply(Op::UdpBind { h: 0, u, ip: b, port: 0 });
+            }
+            for (u, b) in binds {
+                let v6 = b.is_ipv6();
+                let dsts = if v6 { [host_v6(1), ip("lo6"), host_v6(0)] } else { [host_v4(1), ip("lo4"), host_v4(0)] };
+                let hdr = if v6 { 48usize } else { 28 };
+                let la = (mtu as usize).saturating_sub(hdr);
+                let lb = (lomtu as usize).saturating_sub(hdr);
+                let mut lens = vec![0usize, 1];
+                for l in [la, lb] {
+                    if l < 5000 {
+                        lens.extend([l.saturating_sub(1), l, l + 1]);
+                    } else {
+                        lens.extend([l, l + 1]);
+                    }
+                }
+                lens.push((la + lb) / 2);
+                lens.sort();
+                lens.dedup();
+                for dst in dsts {
+                    for &len in &lens {
+                        w.apply(Op::UdpSend { u, len, ip: dst, port: 7777 });
+                    }
+                    w.apply(Op::Egress);
+                }
+            }
+            w.apply(Op::Stat);
+        });
+    }
 }
 
 // ------------------------------------------------------------------------------------------
@@ -723,7 +769,11 @@ fn c13_walk(w: &mut World, cfg: &Cfg, r: &mut Rng) {
                         w.apply(Op::Write { s, data: bytes(n, s) });
                     }
                     3..=5 => {
-                        w.apply(Op::Read { s, n: r.range(1, 16) as usize });
+                        let n = r.range(1, 16) as usize;
+                        if n % 2 == 1 {
+                            w.apply(Op::Peek { s, n: n + 1 });
+                        }
+                        w.apply(Op::Read { s, n });
                     }
                     6..=7 => {
                         w.apply(Op::Shutdown { s });
